@@ -65,6 +65,8 @@ type Task struct {
 	unlockHooks []func()
 	FinishSeq   uint64
 	held        []heldLock
+	opKind      uint64 // op-relative scheduling sites (OpSites strategy)
+	opBase      uint64
 }
 
 type heldLock struct {
@@ -715,6 +717,7 @@ func Go(fn func()) {
 	t := w.newTask("", fn)
 	t.Name = fmt.Sprintf("bg%d", t.ID)
 	t.Background = true
+	t.opKind = 0xb6
 	w.point(KSpawn)
 }
 
